@@ -249,4 +249,63 @@ def splitRR (vals : List Str) : Option (Option Nat × Option Nat × Str × List 
   | [t] => some (none, none, t, [])
   | [] => none
 
+/-! ### the layouts hickory is known to mishandle — classes of the known findings
+
+What an RFC 1035 §5.1 reader sees in a text: comments (`;` to the end of the line), quoted strings
+with backslash escapes, parentheses.  `scan` mirrors `scan` in `harness/src/props/c20.rs`. -/
+
+structure Scan where
+  /-- a quoted string starts inside a parenthesised group -/
+  quoteInsideList : Bool := false
+  /-- … and contains a semicolon -/
+  semicolonInsideQuotedListItem : Bool := false
+  /-- a quoted string outside parentheses contains `\DDD` with DDD ≥ 10 -/
+  decimalEscape : Bool := false
+  deriving DecidableEq, Repr
+
+inductive Mode where
+  | normal | comment | quote (inList : Bool)
+  deriving DecidableEq, Repr
+
+/-- `skip` = characters still to be skipped after a backslash -/
+def scanGo : Str → Mode → Bool → Nat → Scan → Scan
+  | [], _, _, _, s => s
+  | c :: rest, mode, paren, skip + 1, s => scanGo rest mode paren skip s
+  | c :: rest, .normal, paren, 0, s =>
+    if c = 59 then scanGo rest .comment paren 0 s
+    else if c = 40 then scanGo rest .normal true 0 s
+    else if c = 41 then scanGo rest .normal false 0 s
+    else if c = 34 then
+      scanGo rest (.quote paren) paren 0 (if paren then { s with quoteInsideList := true } else s)
+    else if c = 92 then scanGo rest .normal paren 1 s
+    else scanGo rest .normal paren 0 s
+  | c :: rest, .comment, paren, 0, s =>
+    if c = 10 then scanGo rest .normal paren 0 s else scanGo rest .comment paren 0 s
+  | c :: rest, .quote il, paren, 0, s =>
+    if c = 34 then scanGo rest .normal paren 0 s
+    else if c = 59 ∧ il then scanGo rest (.quote il) paren 0 { s with semicolonInsideQuotedListItem := true }
+    else if c = 92 then
+      match rest with
+      | d1 :: d2 :: d3 :: _ =>
+        if isDig d1 ∧ isDig d2 ∧ isDig d3 then
+          scanGo rest (.quote il) paren 3
+            (if !il ∧ !(d1 = 48 ∧ d2 = 48) then { s with decimalEscape := true } else s)
+        else scanGo rest (.quote il) paren 1 s
+      | _ => scanGo rest (.quote il) paren 1 s
+    else scanGo rest (.quote il) paren 0 s
+
+def scan (t : Str) : Scan := scanGo t .normal false 0 {}
+
+def isAlnum (c : Nat) : Bool := (48 ≤ c && c ≤ 57) || (65 ≤ c && c ≤ 90) || (97 ≤ c && c ≤ 122)
+
+/-- can a label be produced by hickory's `Label::from_utf8` at all?  letters, digits, `-`, `.`,
+not starting with `-`; or a `_`-led label of letters, digits, `-`, `_`, `.`; or `*` -/
+def labelLoadable (l : List Nat) : Bool :=
+  if l = [42] then true
+  else if l.head? = some 95 then l.all fun c => isAlnum c || c = 45 || c = 95 || c = 46
+  else l.head? != some 45 && l.all fun c => isAlnum c || c = 45 || c = 46
+
+/-- class `name-label-not-ldh` -/
+def nameNotLdh (n : Name) : Bool := n.labels.any fun l => !labelLoadable l
+
 end HickoryVerif.Spec.MasterFile
